@@ -388,6 +388,10 @@ def gen_ident_cases(rng, n):
         cases.append(('EdgeIDObj_eq', [e1, e2]))
         cases.append(('EdgeIDObj_eq', [e1, rng.choice([q, 7])]))
         cases.append(('EdgeIDObj_get_connected_qubit_id', [e1, q]))
+        # unique_in_order: ints, names, repeated elements, empty
+        k = rng.randint(0, 9)
+        cases.append(('Util_unique_in_order', [[rng.randint(0, 4) for _ in range(k)]]))
+        cases.append(('Util_unique_in_order', [[rng.choice(['D1', 'D2', 'X1', 'd1']) for _ in range(k)]]))
     return cases
 
 
